@@ -14,3 +14,9 @@ def generators(tier, seed):
     if tier == "quick":
         return [dict(module="MC_C05", cfg="MC_C05_q", workers=4)]
     return [dict(module="MC_C05", cfg="MC_C05_t", workers=8)]
+
+MANIFEST = dict(
+    design_ref='DESIGN.md §5 C05',
+    text="TLC enumerates key lists (length <= 2 quick / <= 3 thorough) x directions x select style (not selected / selected / positional) x WHERE over world W5 (ties, 9/10/100, link counts 1/2/12); the run with ORDER BY must be a permutation of the run without and pairwise ordered under Order.tla's typed key comparison (keys taken from the world, so they need not be selected).",
+    note='Trusted: TLC, Order/Eval, lstat values. One world of 22 entries; ASCII names (code-point order).',
+    technique='TLC key-list enumeration + paired replay + TLA+ judge')
